@@ -44,7 +44,9 @@ MIN_COUNTERS = {'dbscan_catalogues': 40, 'dbscan_runs': 400, 'dbscan_links_check
                 'elliptical_groups_checked': 20, 'resize_ratio1_sources': 100, 'resize_ratio1_nopsf_sources': 20,
                 'resize_larger_ratio_sources': 100, 'resize_ratio1_with_helper_sources': 50,
                 'resize_ratio1_with_helper_psf_differs_sources': 20, 'resize_larger_ratio_with_helper_sources': 30,
-                'aereg_runs': 8, 'priorized_runs': 8}
+                'aereg_runs': 8, 'priorized_runs': 8, 'aereg_runs_with_ratio': 8,
+                'aereg_runs_with_psfheader': 4, 'aereg_runs_with_noregroup': 3, 'aereg_runs_with_debug': 3,
+                'threshold_pairs_judged_aereg_rescaled': 100, 'aereg_noregroup_rows_checked': 50}
 BATCHES_PER_JOB = 4
 
 REL_BAND = 1e-9
@@ -666,9 +668,32 @@ def _run_aereg(o, case):
         names = _write_csv(inp, srcs, drop_psf=nopsf, delimiter=',' if ext == 'csv' else '\t')
         out = os.path.join(work, 'out.csv')
         argv = ['--input', inp, '--table', out, '--eps', repr(case['eps_arcmin'])]
-        if case.get('ratio') is not None:
-            argv += ['--ratio', repr(case['ratio'])]
-        ctx = {'entry': 'AeReg', 'argv': ' '.join(argv[4:]), 'eps_arcmin': case['eps_arcmin'], 'psf_columns': not nopsf}
+        ratio = case.get('ratio')
+        psfheader = bool(case.get('psfheader'))
+        regrouping = not case.get('noregroup')
+        if ratio is not None:
+            argv += ['--ratio', repr(ratio)]
+        if psfheader:
+            # a FITS file whose header carries the *target* psf (BMAJ/BMIN/BPA) and WCS, centred on the catalogue
+            from astropy.io import fits
+            from aegmon.refs import wcs_zenithal as wz
+            hdr = wz.make_header(crval=(float(ra[0]), float(dec[0])), crpix=(16, 16), cdelt=(-0.01, 0.01), shape=(32, 32),
+                                 beam=IMAGE_BEAM)
+            pf = os.path.join(work, 'target_psf.fits')
+            fits.writeto(pf, np.zeros((32, 32), dtype=np.float32), hdr)
+            argv += ['--psfheader', pf]
+        if not regrouping:
+            argv += ['--noregroup']
+        if case.get('debug'):
+            argv += ['--debug']
+        if case.get('options_first'):
+            argv = argv[4:] + argv[:4]
+        shown = ' '.join(a if not a.startswith(work) else os.path.basename(a) for a in argv if a not in (inp, out, '--input', '--table'))
+        ctx = {'entry': 'AeReg', 'argv': shown, 'eps_arcmin': case['eps_arcmin'], 'psf_columns': not nopsf}
+        for opt in ('--ratio', '--psfheader', '--noregroup', '--debug'):
+            if opt in argv:
+                o.count('aereg_runs_with_' + opt.lstrip('-'))
+        shapes_may_change = psfheader or (ratio is not None and ratio != 1)
         try:
             with warnings.catch_warnings():
                 warnings.simplefilter('ignore')
@@ -706,21 +731,39 @@ def _run_aereg(o, case):
                     continue
                 v, w = getattr(s, nm), t[nm][k]
                 same = (str(w) == v) if isinstance(v, str) else (float(w) == float(v) or (v != v and not np.isfinite(float(w))))
-                if not same and not (nm in ('a', 'b') and case.get('ratio') == 1 and abs(float(w) - v) <= 1e-12 * v):
+                if nm in ('a', 'b') and shapes_may_change:
+                    # rescaling is allowed to change the shape; a ratio > 1 (used, i.e. without --psfheader) never shrinks
+                    if not psfheader and ratio > 1 and not float(w) >= v * (1 - 1e-12):
+                        o.violate('larger_ratio_shrinks', dict(ctx, attribute=nm, before=repr(v), after=repr(w)))
+                        return
+                    continue
+                if not same and not (nm in ('a', 'b') and abs(float(w) - v) <= 1e-12 * v):
                     o.violate('attribute_changed', dict(ctx, attribute=nm, before=repr(v), after=repr(w)))
                     return
+        if not regrouping:
+            # --noregroup: the labels of the input catalogue are kept
+            for s, r in zip(srcs, rows):
+                if (r.island, r.source) != (s.island, s.source):
+                    o.violate('noregroup_changes_labels', dict(ctx, before=[s.island, s.source], after=[r.island, r.source]))
+                    return
+            o.count('aereg_noregroup_rows_checked', n)
+            o.n_nontrivial += 1
+            o.sample = {'argv': shown, 'n': n}
+            return
         gd = {}
         for r in rows:
             gd.setdefault(r.island, []).append(r)
         groups = list(gd.values())
         orc = _oracle(ra, dec, theta)
         _count_entry_pairs(o, orc, theta, 'aereg')
+        if shapes_may_change:
+            _count_entry_pairs(o, orc, theta, 'aereg_rescaled')
         # _judge_partition identifies sources by object identity: use the Row objects
         subj = _judge_partition(o, groups, rows, ra, dec, theta, orc, ctx, 'aereg')
         if subj is not None:
             _judge_numbering(o, groups, ctx)
         o.n_nontrivial += 1
-        o.sample = {'argv': argv[4:], 'n': n, 'groups': len(groups), 'oracle_groups': len(set(orc[0].tolist()))}
+        o.sample = {'argv': shown, 'n': n, 'groups': len(groups), 'oracle_groups': len(set(orc[0].tolist()))}
     finally:
         shutil.rmtree(work, ignore_errors=True)
 
@@ -813,6 +856,22 @@ def cases(seed, tier):
     out.append({'kind': 'aereg', 'eps_arcmin': 4.0, 'offsets': OFFSETS, 'ratio': 1.0, 'nopsf': True,
                 'seed': [0, 'aereg', 'ratio1', 'nopsf']})
     out.append({'kind': 'aereg', 'eps_arcmin': 2.0, 'offsets': OFFSETS, 'ext': 'tab', 'seed': [0, 'aereg', 'tab']})
+    # the options of the command line: the table written must be the partition for the --eps the user gave,
+    # whatever rescaling is asked for (regroup_dbscan links positions, not shapes)
+    for e in (0.5, 4.0, 30.0):
+        for r in (2.0, 1.0001, 5.0):
+            out.append({'kind': 'aereg', 'eps_arcmin': e, 'offsets': OFFSETS, 'ratio': r, 'seed': [0, 'aereg', 'ratio', e, r]})
+    for e in (0.5, 2.0):
+        out.append({'kind': 'aereg', 'eps_arcmin': e, 'offsets': OFFSETS, 'psfheader': True, 'seed': [0, 'aereg', 'psfh', e]})
+        out.append({'kind': 'aereg', 'eps_arcmin': e, 'offsets': OFFSETS, 'psfheader': True, 'ratio': 3.0, 'debug': True,
+                    'seed': [0, 'aereg', 'psfh+ratio', e]})
+    out.append({'kind': 'aereg', 'eps_arcmin': 4.0, 'offsets': OFFSETS, 'noregroup': True, 'seed': [0, 'aereg', 'noregroup']})
+    out.append({'kind': 'aereg', 'eps_arcmin': 4.0, 'offsets': OFFSETS, 'noregroup': True, 'ratio': 2.0, 'options_first': True,
+                'seed': [0, 'aereg', 'noregroup', 'ratio']})
+    out.append({'kind': 'aereg', 'eps_arcmin': 1.0, 'offsets': OFFSETS, 'noregroup': True, 'psfheader': True,
+                'seed': [0, 'aereg', 'noregroup', 'psfh']})
+    out.append({'kind': 'aereg', 'eps_arcmin': 10.0, 'offsets': OFFSETS, 'ratio': 2.0, 'debug': True, 'options_first': True,
+                'ext': 'tab', 'seed': [0, 'aereg', 'ratio', 'debug']})
     out.append({'kind': 'priorized', 'eps_arcmin': 4.0, 'offsets': OFFSETS, 'nopsf': True, 'seed': [0, 'priorized', 'nopsf']})
     for th_arcmin in (0.001, 0.01, 0.1, 1.0, 4.0, 30.0, 120.0, 600.0):
         # API level, kd-tree regime (> 11 rows) and tiny catalogues (<= 11 rows)
@@ -871,6 +930,11 @@ def cases(seed, tier):
         e = float(10 ** rng.uniform(-1, np.log10(120)))
         offs = [float(10 ** rng.uniform(-7, -3)) for _ in range(8)]
         out.append({'kind': 'aereg', 'eps_arcmin': e, 'offsets': offs, 'seed': [seed, 'aereg-r', k]})
+        e2 = float(10 ** rng.uniform(-1, np.log10(3.0)))
+        out.append({'kind': 'aereg', 'eps_arcmin': e2 if k % 3 == 1 else e, 'offsets': offs,
+                    'ratio': [float(rng.uniform(1.0, 6.0)), None, float(rng.uniform(1.0, 2.0))][k % 3],
+                    'psfheader': k % 3 == 1, 'noregroup': k % 5 == 4, 'debug': bool(k % 2),
+                    'seed': [seed, 'aereg-opt', k]})
         out.append({'kind': 'priorized', 'eps_arcmin': e, 'offsets': offs, 'seed': [seed, 'prio-r', k]})
     return out
 
